@@ -57,7 +57,7 @@ def cases(tier, rng):
             cs.append({"line": line, "key": line, "model": False, "tags": {"carrier": c + "+stdin-listener", "n": n, "dir": "both"}})
     # several logical connections transferring both ways at the same time over one session, also with one or two scheduler threads (a
     # buffer handed from one connection to another by mistake shows when goroutines switch at blocking points only)
-    for c, k, n, procs in ([("tcp", 4, 2000000, 1), ("tcp", 4, 2000000, 2), ("ws", 4, 1000000, 1), ("tcp", 6, 1000000, 0)] +
+    for c, k, n, procs in ([("tcp", 4, 4000000, 1), ("tcp", 8, 2000000, 1), ("tcp", 8, 2000000, 2), ("ws", 4, 2000000, 1), ("tcp", 6, 1000000, 0)] +
                            ([("kcp", 4, 500000, 1), ("stdio", 4, 1000000, 1), ("tcp-starttls", 4, 1000000, 1), ("wss", 3, 1000000, 2), ("dns", 2, 20000, 1)] if thorough else [])):
         line = "c01par %s %d %d %d" % (c, k, n, procs)
         cs.append({"line": line, "key": line, "model": False, "tags": {"carrier": c, "n": n, "dir": "parallel"}})
